@@ -107,7 +107,7 @@ def mal_event(args):
             m = None
         if m is not None:
             try:
-                ev["obs"] = dyn.obs_bp(schema, m, ty)
+                ev["obs"] = dyn.obs_decoded(schema, m, ty)
             except Hang:
                 ev["res"] = "hang"
             except Exception as ex:
